@@ -509,6 +509,13 @@ func CheckMain(root, id, tier string, seed uint64) int {
 		fmt.Fprintln(os.Stderr, "HARNESS TROUBLE: no run was executed")
 		return 2
 	}
+	if tier == "thorough" && newViolations == 0 {
+		// determinism is re-proved in every thorough run for this property's engine
+		if rc := selfTest(nil, root, []string{"--n", "30", id}); rc != 0 {
+			fmt.Fprintln(os.Stderr, "HARNESS TROUBLE: determinism self-test failed (exit 2, not a verdict)")
+			return 2
+		}
+	}
 	if newViolations > 0 {
 		return 1
 	}
